@@ -1000,7 +1000,12 @@ func (r *replicateChannelHandler) AddCollection(taskID string, sourceInfo *model
 		replicatePool.Submit(func() (struct{}, error) {
 			dropCollectionLog := log.With(zap.Int64("collection_id", collectionID), zap.String("collection_name", targetInfo.CollectionName))
 			dropCollectionLog.Info("generate msg for dropped collection")
-			generatePosition := r.sourceSeekPosition
+			// use the checkpoint of the dropped collection itself, the handler's seek position belongs to
+			// the collection which created the handler and may be empty
+			generatePosition := sourceInfo.SeekPosition
+			if generatePosition == nil {
+				generatePosition = r.sourceSeekPosition
+			}
 			if generatePosition == nil || generatePosition.Timestamp == 0 {
 				// TODO how to do it???
 				dropCollectionLog.Warn("drop collection, but seek timestamp is 0")
